@@ -4,6 +4,7 @@
 #include <cholmod.h>
 #include <photospline/detail/splineutil.h>
 #include <float.h>
+#include <pthread.h>
 
 using namespace vf;
 typedef long double LD;
@@ -136,8 +137,75 @@ static std::string prob_json(const Prob &p, const double *x) {
 	return j + "}";
 }
 
+// A long banded system solved from a thread with a small stack (512 KiB is the default of secondary threads on several platforms and of many language runtimes that
+// call into C): the solvers' working storage has to scale with the heap, not with the caller's stack. Judged through the KKT residual, band by band.
+struct BigJob { int id; cholmod_sparse *A; cholmod_dense *b; cholmod_dense *x; double tol; };
+static void *big_thread(void *v) {
+	BigJob *j = (BigJob *)v;
+	switch (j->id) {
+	case 0: j->x = nnls_normal_block3(j->A, j->b, 0, &CC); break;
+	case 1: j->x = nnls_normal_block(j->A, j->b, 0, &CC); break;
+	case 2: j->x = nnls_normal_block_updown(j->A, j->b, 0, &CC); break;
+	default: j->x = nnls_lawson_hanson(j->A, j->b, j->tol, 0, 0, 0, 1, 0, &CC); break;
+	}
+	return nullptr;
+}
+static void run_big(const Args &a, long cs, Rng &r) {
+	bool th = a.tier == "thorough";
+	int n = th ? r.range(60000, 120000) : r.range(30000, 50000), bw = r.range(1, 2);
+	double dg = 2.0 * bw + 0.5 + r.U();
+	std::vector<double> b(n); for (auto &v : b) v = r.U() - 0.45;
+	count("long-banded-systems(small-stack thread)");
+	struct S { const char *name; int id; double t_neg, tol_dual; };
+	double bscale = 1; double kkt3 = (double)n * DBL_EPSILON * 1e5 * bscale;
+	S solvers[] = {{"nnls_normal_block3", 0, 0.0, kkt3}, {"nnls_normal_block", 1, 1e-6, 1e-6}, {"nnls_normal_block_updown", 2, 1e-6, 1e-6}, {"nnls_lawson_hanson(normaleq)", 3, 0.0, 1e-10}};
+	for (auto &sv : solvers) {
+		if (sv.id == 3 && !(cs % 3 == 0)) continue; // (Lawson-Hanson frees one coefficient per iteration with a QR solve each: only on a short system)
+		int nn = sv.id == 3 ? 70000 : n; // 16 bytes of index sets per column: 1.1 MB
+		std::vector<double> bb(nn); for (int i = 0; i < nn; i++) bb[i] = sv.id == 3 ? (i % 9000 == 17 ? 1.0 : -0.5) : b[i % n];
+		cholmod_triplet *T = cholmod_l_allocate_triplet(nn, nn, (size_t)nn * (2 * bw + 1), 0, CHOLMOD_REAL, &CC);
+		long *Ti = (long *)T->i, *Tj = (long *)T->j; double *Tx = (double *)T->x; size_t nz = 0;
+		for (int i = 0; i < nn; i++) for (int d = -bw; d <= bw; d++) { int j = i + d; if (j < 0 || j >= nn) continue; Ti[nz] = i; Tj[nz] = j; Tx[nz] = d == 0 ? dg : -1.0 / std::abs(d); nz++; }
+		T->nnz = nz;
+		cholmod_sparse *As = cholmod_l_triplet_to_sparse(T, nz, &CC); cholmod_l_free_triplet(&T, &CC);
+		cholmod_dense *bd = cholmod_l_allocate_dense(nn, 1, nn, CHOLMOD_REAL, &CC); memcpy(bd->x, bb.data(), sizeof(double) * nn);
+		BigJob job{sv.id, As, bd, nullptr, 1e-10};
+		if (a.verbose) fprintf(stderr, "case %ld: long banded system n=%d bw=%d solver=%s\n", cs, nn, bw, sv.name);
+		phase_log(std::string(sv.name) + " on a long banded system (n = 30000..120000) from a thread with a 512 KiB stack");
+		g_in_solver = 1; g_solver_name = sv.name;
+		pthread_attr_t at; pthread_attr_init(&at); pthread_attr_setstacksize(&at, 512 * 1024);
+		pthread_t tid; if (pthread_create(&tid, &at, big_thread, &job) != 0) { g_in_solver = 0; note("pthread_create-with-small-stack-failed"); return; }
+		pthread_join(tid, nullptr); pthread_attr_destroy(&at);
+		g_in_solver = 0;
+		count(std::string("solves:") + sv.name); count(std::string("small-stack-solves:") + sv.name);
+		distinct(hash_mix(hash_mix(hash_d(77, dg), nn), sv.id));
+		std::string pj = "{\"n\":" + std::to_string(nn) + ",\"kind\":\"long-banded(small-stack thread)\",\"bandwidth\":" + std::to_string(bw) + ",\"diagonal\":" + jnum(dg) + "}";
+		if (!job.x) { viol(std::string("C11:") + sv.name + ":returned-NULL", pj); cholmod_l_free_sparse(&As, &CC); cholmod_l_free_dense(&bd, &CC); continue; }
+		const double *xx = (const double *)job.x->x; bool finite = true; for (int i = 0; i < nn; i++) if (!std::isfinite(xx[i])) finite = false;
+		if (!finite) viol(std::string("C11:") + sv.name + ":non-finite-result", pj);
+		else {
+			double offsum = 0; for (int d = 1; d <= bw; d++) offsum += 2.0 / d; double kappa = (dg + offsum) / (dg - offsum);
+			double magmax = 0; std::vector<LD> g(nn), mg(nn);
+			for (int i = 0; i < nn; i++) { LD gi = -(LD)bb[i], m = fabsl((LD)bb[i]); for (int d = -bw; d <= bw; d++) { int j = i + d; if (j < 0 || j >= nn) continue; LD aij = d == 0 ? dg : -1.0 / std::abs(d); gi += aij * xx[j]; m += fabsl(aij * xx[j]); } g[i] = gi; mg[i] = m; magmax = std::max(magmax, (double)m); }
+			double worst = 0, negover = 0; int wi = -1; const char *wk = "";
+			for (int i = 0; i < nn; i++) {
+				double tau = sv.tol_dual + 64.0 * (2 * bw + 1) * DBL_EPSILON * (double)mg[i]; double v; const char *kd;
+				if (xx[i] < -sv.t_neg) negover = std::max(negover, -xx[i] - sv.t_neg);
+				if (xx[i] > sv.t_neg) { v = (double)fabsl(g[i]); kd = "gradient-nonzero-on-positive-component"; tau += 64.0 * (2 * bw + 1) * DBL_EPSILON * kappa * magmax; }
+				else { v = g[i] < 0 ? (double)-g[i] : 0; kd = "gradient-negative-on-zero-component"; tau += 64.0 * (2 * bw + 1) * DBL_EPSILON * kappa * magmax; }
+				if (v > tau && v / tau > worst) { worst = v / tau; wi = i; wk = kd; }
+			}
+			if (negover > 0) viol(std::string("C11:") + sv.name + ":negative-component", pj);
+			if (wi >= 0) viol(std::string("C11:") + sv.name + ":KKT-violated:" + wk, "{\"component\":" + std::to_string(wi) + ",\"violation_over_tolerance\":" + jnum(worst) + ",\"problem\":" + pj + "}");
+			else count("KKT-checks-passed");
+		}
+		cholmod_l_free_dense(&job.x, &CC); cholmod_l_free_dense(&bd, &CC); cholmod_l_free_sparse(&As, &CC);
+	}
+}
+
 static void run_C11(const Args &a, long cs) {
 	Rng r(a.seed, "C11", cs);
+	if (cs % 160 == 157) { run_big(a, cs, r); return; }
 	bool small = cs % 4 != 3;
 	Prob p = gen(r, small);
 	if (cs % 100 == 98) { // two fixed 4x4 systems (A = M'M + I/2) on which the principal-pivoting solvers need 13 single pivots - more than a budget of 3n allows
